@@ -200,20 +200,21 @@ func (r *remoteKeySet) updateKeys(ctx context.Context) {
 	// Sync keys and finish inflight when that's done.
 	keys, err := r.fetchRemoteKeys(ctx)
 
-	r.inflight.done(keys, err)
-	verifAfterInflightDone()
-
 	// Lock to update the keys and indicate that there is no longer an
 	// inflight request.
 	r.mu.Lock()
-	defer r.mu.Unlock()
-
 	if err == nil {
 		r.cachedKeys = keys
 	}
-
-	// Free inflight so a different request can run.
+	// Free inflight so a different request can run. This happens before the
+	// waiters are woken: a caller that arrives after the result was handed
+	// out must start a new download instead of joining the finished one.
+	inflight := r.inflight
 	r.inflight = nil
+	r.mu.Unlock()
+
+	inflight.done(keys, err)
+	verifAfterInflightDone()
 }
 
 func (r *remoteKeySet) fetchRemoteKeys(ctx context.Context) ([]jose.JSONWebKey, error) {
